@@ -28,9 +28,10 @@ EXPLANATION = ("Program P1 = the all-in-one command; P2 = generate-info, generat
                "re-running the data-writing steps leaves the decoded contents equal; exit status 0 implies every chunk "
                "exists and decodes; statistics and a refused second generate-scales-info leave the files untouched.")
 BOUNDS = {"quick": "volumes up to 132x3x2 (2-3 scales with the default 64 target chunk), uint8/uint16 images and segmentations, "
-                   "downscaling methods auto/average/stride/majority, flat/gzip options, compressed_segmentation with 2 labels",
+                   "downscaling methods auto/average/stride/majority, flat/gzip options, compressed_segmentation with 2 labels; each pipeline is "
+                   "followed by the repeated data-writing steps, compute-scales with gzip toggled, convert-chunks --copy-info run twice, scale-stats",
           "thorough": "more option combinations, sharding"}
-OUTSIDE = ["entry-point wiring / subprocesses", "malformed command lines", "slices-to-precomputed and convert-chunks steps (C15, C13)"]
+OUTSIDE = ["entry-point wiring / subprocesses", "malformed command lines", "the slices-to-precomputed step (C15)"]
 
 
 def _cfg(shape, dtype, opts, **kw):
@@ -190,6 +191,20 @@ def H_pipeline(ctx, cfg):
         for li, (a, b) in enumerate(zip(l2, l4)):
             ctx.prove(a.shape == b.shape and z3.And([V.eq_elems(x, y) for x, y in zip(a.ravel(), b.ravel())]),
                       f"scale-{li}-unchanged-by-repeating-with-gzip-toggled")
+    # ---- convert-chunks as a further step of the workflow (same options, --copy-info), run twice
+    cc_ = W.script("convert_chunks")
+    p3 = "/mfs/p3"
+    # first run copies the info; the repeat uses the info now present in the destination (a second --copy-info is
+    # refused because the info exists: allowed to fail, but must leave the contents alone)
+    for label, extra, must_succeed in (("convert-chunks", ["--copy-info"], True), ("convert-chunks-again", [], True),
+                                       ("convert-chunks-copy-info-again", ["--copy-info"], False)):
+        _run(ctx, W, cc_, ["prog", p2, p3] + extra + acc_o, label, expect_ok=must_succeed)
+        i5, l5 = _decode_all(ctx, W, p3, label, ropts)
+        ctx.prove(i5 == i2, f"{label}-copies-the-info")
+        if l5 is not None and len(l5) == len(l2):
+            for li, (a, b) in enumerate(zip(l2, l5)):
+                ctx.prove(a.shape == b.shape and z3.And([V.eq_elems(x, y) for x, y in zip(a.ravel(), b.ravel())]),
+                          f"scale-{li}-after-{label}-decodes-to-the-same-voxels")
     # ---- read-only commands leave the dataset untouched
     before = _files(W, p2)
     _run(ctx, W, st, ["prog", p2], "scale-stats")
@@ -240,13 +255,16 @@ def replay(cfg, cex):
                  (cs_, ["prog", p2] + acc_o + comp_o)]
         toggled = [o for o in acc_o if o != "--no-gzip"] + ([] if "--no-gzip" in acc_o else ["--no-gzip"])
         steps += [(v2p, ["prog", fn, p2] + acc_o), (cs_, ["prog", p2] + acc_o + comp_o), (cs_, ["prog", p2] + toggled + comp_o)]
+        cc_ = load.mod("scripts.convert_chunks")
+        p3 = os.path.join(td, "p3")
+        steps += [(cc_, ["prog", p2, p3, "--copy-info"] + acc_o), (cc_, ["prog", p2, p3] + acc_o)]
         for mod, argv in steps:
             rc = run(mod, argv)
             if rc != 0:
                 return True, f"{mod.__name__.rsplit('.', 1)[1]} {argv[2:]} exited with {rc}"
         ropts = dict(flat="--flat" in opts, gzip="--no-gzip" not in opts)
         infos, data = [], []
-        for p in (p1, p2):
+        for p in (p1, p2, p3):
             r = pio.get_IO_for_existing_dataset(acc_mod.get_accessor_for_url(p, ropts))
             infos.append(r.info)
             lv = []
@@ -266,7 +284,12 @@ def replay(cfg, cex):
             data.append(lv)
         if infos[0] != infos[1]:
             return True, "info files differ between the all-in-one command and the step-by-step pipeline"
-        for li, (a, b) in enumerate(zip(*data)):
+        for li, (a, b) in enumerate(zip(data[0], data[1])):
             if a.shape != b.shape or not real_np.array_equal(a, b):
                 return True, f"scale {infos[0]['scales'][li]['key']}: {builtins.int((a != b).sum()) if a.shape == b.shape else '?'} voxels differ between the all-in-one command and the step-by-step pipeline"
+        if infos[2] != infos[1] or len(data[2]) != len(data[1]):
+            return True, "convert-chunks --copy-info produced a different info"
+        for li, (a, b) in enumerate(zip(data[1], data[2])):
+            if a.shape != b.shape or not real_np.array_equal(a, b):
+                return True, f"scale {infos[1]['scales'][li]['key']}: voxels differ after convert-chunks (run twice)"
     return False, "both pipelines agree on the real code"
